@@ -24,6 +24,29 @@ def _strip_actor_volatile(a):
     return a
 
 
+def _machine_invoke_started(sc, res):
+    svc_ = (sc.get("logic") or {}).get("services") or {}
+    root = sc["machine"]["id"]
+    ids = []
+
+    def walk(c):
+        iv = c.get("invoke")
+        for one in (iv if isinstance(iv, list) else [iv] if iv else []):
+            if isinstance(one, dict) and (svc_.get(one.get("src")) or {}).get("k") == "machine":
+                ids.append((one.get("id"), one.get("src")))
+        for ch in (c.get("states") or {}).values():
+            walk(ch)
+    walk(sc["machine"])
+    if not ids:
+        return False
+    for r in res.trace:
+        if r[K] == "i-start" and r[4] != root:
+            for inv_id, src in ids:
+                if r[4] == f"{root}:{inv_id}":
+                    return True
+    return False
+
+
 def run_c12(sc):
     if sc.get("c12_mode") == "corrupt":
         return run_c12_corrupt(sc)
@@ -59,9 +82,9 @@ def run_c12(sc):
         if res.meta.get("abort"):
             continue
         tested += 1
-        svc_ = (sc.get("logic") or {}).get("services") or {}
         sig = {"engine": sc["engine"], "uses_actors": bool(sc.get("uses_actors")), "uses_history": "'history'" in repr(sc["machine"]),
-               "invokes_machine": any((v or {}).get("k") == "machine" for v in svc_.values()) and "'invoke'" in repr(sc["machine"])}
+               # an invoked child MACHINE was actually started in the uninterrupted run (declaring one is not enough)
+               "invokes_machine": _machine_invoke_started(sc, base)}
         # snapshot text is valid JSON; restore succeeded; re-snapshot equals
         snaps = {}
         bad = False
